@@ -44,6 +44,13 @@ def router(P: Project) -> FuncInfo:
     for f in P.methods(client(P)).values():
         if any(isinstance(x, ast.Call) and call_name(x) in incoming_send_calls(P, client(P)) for x in walk_local(f.node)):
             c.append(f)
+    if len(c) > 1:
+        # helpers of the router also send; the router is the one the others are reached from (called or spawned)
+        def refers(a, b):
+            return any(isinstance(x, ast.Attribute) and x.attr == b.name and isinstance(x.value, ast.Name) and x.value.id == "self" for x in walk_local(a.node))
+        tops = [f for f in c if not any(g is not f and refers(g, f) for g in c)]
+        if len(tops) == 1:
+            return tops[0]
     if len(c) != 1:
         raise AnalysisError(f"anchor: expected one method sending on the incoming stream, found {len(c)}")
     return c[0]
